@@ -238,6 +238,8 @@ func propC11(c *Ctx) {
 
 	c.Rule("R11.5", "decoder rows are cleared before reuse (a column never keeps the previous log's value)", 2)
 	checkDecoderRowsCleared(c, "R11.5")
+	c.Rule("R11.9", "a reply is decoded into a value of its own: a request issued from a loop decodes into a destination allocated or wholly reset in that iteration (members copied out of the previous reply keep their values)", 1)
+	checkDecodeTargetsFresh(c, "R11.9")
 	c.Rule("R11.6", "every log is attached to the block and transaction named by its own blockNumber / transactionIndex (block_num, block_hash, tx_hash of a row are those of the log's own block)", 2)
 	checkLogsGrouping(c, "R11.6")
 
@@ -1051,4 +1053,65 @@ func presentRet(h *ssa.Function, d int) (bool, bool) {
 		}
 	}
 	return onPresent[0], true
+}
+
+// checkDecodeTargetsFresh: a reply decoded into a value that already holds the previous reply re-uses its
+// buffers (the decoder writes byte strings into the existing backing arrays), and the members copied out of
+// the previous reply – trace actions, kept in the blocks – change with it. Each request issued from a loop
+// decodes into a value allocated, or reset as a whole, in that iteration.
+func checkDecodeTargetsFresh(c *Ctx, rule string) {
+	w := c.W
+	do := w.Fn("jrpc2", "(*Client).do")
+	n := 0
+	for _, fn := range w.RepoFuncs() {
+		if takesTestingTB(fn) {
+			continue
+		}
+		for _, call := range callsToFn(fn, do) {
+			if !inLoop(call) || len(call.Call.Args) < 4 {
+				continue
+			}
+			n++
+			key := fmt.Sprintf("%s/do#%d-decodes-into-a-value-of-its-own", fn.Name(), callOrdinal(call))
+			dst := call.Call.Args[3]
+			if mi, ok := dst.(*ssa.MakeInterface); ok {
+				dst = mi.X
+			}
+			al, ok := stripConv(dst).(*ssa.Alloc)
+			if !ok {
+				c.OK(rule, key, call.Pos(), "the destination is not a local of the requesting function: not decided")
+				continue
+			}
+			h := loopHeaderOf(call)
+			lp := naturalLoop(h)
+			good := lp[al.Block()]
+			detail := "the destination is allocated in the iteration that sends the request"
+			if !good {
+				for _, r := range refsOf(al) {
+					st, isSt := r.(*ssa.Store)
+					if !isSt || st.Addr != ssa.Value(al) || !lp[st.Block()] || !dominatesInstr(st, call) {
+						continue
+					}
+					if k, isC := st.Val.(*ssa.Const); isC && k.Value == nil {
+						good = true
+						detail = "the destination is reset as a whole in the iteration that sends the request"
+					}
+				}
+			}
+			if !good {
+				// harmful only when something decoded is kept by reference beyond the function's locals
+				sink, _ := retainedBeyond(fn, []ssa.Value{al}, nil, 3)
+				if sink == nil {
+					good = true
+					detail = "the destination outlives the iteration, but nothing decoded into it is kept by reference (everything taken from it is copied)"
+				} else {
+					detail = "the destination outlives the iteration and is not reset as a whole, and " + c.W.Pos(instrPos(sink)) + " keeps a reference into it: the next reply is decoded over the previous one, whose members the blocks still hold"
+				}
+			}
+			c.Check(rule, key, call.Pos(), good, detail)
+		}
+	}
+	if n == 0 {
+		c.OK(rule, "do/no-request-in-a-loop", do.Pos(), "no request is issued from inside a loop")
+	}
 }
